@@ -3,6 +3,7 @@ Proved: a placed decision timed before the end of the invocation is rejected (Va
 the past -, the event queue is a valid heap again on return, the decisions are consumed (`_last_scheduler_placements`
 reset), and the next scheduler / end event and a LOG_UTILIZATION event are queued."""
 import z3
+from contracts.c_taskgraph import Adj
 
 from pyvc import ty as T
 from pyvc import heap as H
@@ -89,6 +90,10 @@ def _sf_mod(c):
     out[c.pre.fld_arr(EVENT, "_placement")[0]] = ANY
     out[c.pre.fld_arr(SIM, "_last_scheduler_placements")[0]] = [s]
     out[c.pre.fld_arr(SIM, "_next_scheduler_event")[0]] = [s]
+    # cancellation cascades (skip helper with drop_skipped_tasks, CANCEL_TASK decisions) may add empty entries to the parent
+    # map of the graph of any decided task
+    for p_ in ("len", "keys", "idx", "dom", "val"):
+        out[c.pre.carr(Adj, p_)[0]] = ANY
     return out
 
 
@@ -182,7 +187,7 @@ Contract(
     "simulator.Simulator.__handle_scheduler_finish",
     params={"self": Simulator.ty, "event": S_.Event.ty},
     requires=_sf_requires,
-    may_raise=("ValueError", "NotImplementedError", "RuntimeError", "AttributeError", "KeyError"),
+    may_raise=("ValueError", "NotImplementedError", "RuntimeError", "AttributeError", "KeyError", "AssertionError"),
     raise_unchanged=False,
     modifies=_sf_mod,
     loops={0: Loop(inv=_sf_loop0_inv, modifies=_sf_loop0_mod, lemmas=_sf_loop0_lemmas), 1: Loop(inv=_sf_loop1_inv, modifies=lambda c: lst_mod(c, sim_queue(c.pre, c.arg("self"))))},
@@ -195,6 +200,6 @@ Contract(
     ensures=_sf_ens,
     entry_facts=lambda c: [closed_queue(c), closed_decisions(c), Fact("heap.closed", z3.And(c.arg("event") > 0, c.arg("event") < c.alloc0))],
     allocates=True,
-    note="opaque: the two counts that only feed the SCHEDULER_FINISHED row (csv logger, dropped); precondition: schedule verification off; the skip helper and __get_next_scheduler_event are used by contract (the latter is verified in the thorough tier)",
+    note="opaque: the two counts that only feed the SCHEDULER_FINISHED row (csv logger, dropped); precondition: schedule verification off; the skip helper (verified) and __get_next_scheduler_event (verified in the thorough tier) are used by contract; AssertionError when a CANCEL_TASK decision names a pool (the skip helper's assert), not constrained",
     props=("C03", "C05", "C16", "C02"),
 )
